@@ -430,6 +430,12 @@ pub fn run_check(def: &CheckDef, tier: Tier) -> i32 {
 	let mut harness_errors: Vec<String> = Vec::new();
 	let mut dead_cases: Vec<(u64, String)> = Vec::new();
 	let mut last_progress: BTreeMap<u64, (u64, u64)> = BTreeMap::new(); // slot -> (file len, time)
+	// a case takes milliseconds to a few seconds (thorough crash-engine cases: up to tens of
+	// seconds on a loaded machine); VERIF_WATCHDOG_S overrides
+	let watchdog_ns: u64 = std::env::var("VERIF_WATCHDOG_S").ok().and_then(|s| s.parse::<u64>().ok()).unwrap_or(match tier {
+		Tier::Quick => 75,
+		Tier::Thorough => 180,
+	}) * 1_000_000_000;
 	loop {
 		let mut running = 0;
 		for s in slots.iter_mut() {
@@ -445,7 +451,9 @@ pub fn run_check(def: &CheckDef, tier: Tier) -> i32 {
 									dead_cases.push((b, format!("worker died ({})", status)));
 									s.next = b + workers;
 									s.restarts += 1;
-									if s.next < total && s.restarts < 50 {
+									// a few dead cases are enough to report; do not grind through a
+									// tree in which many cases die or hang
+									if s.next < total && s.restarts < 50 && dead_cases.len() < 3 {
 										spawn(s);
 										running += 1;
 									}
@@ -463,16 +471,16 @@ pub fn run_check(def: &CheckDef, tier: Tier) -> i32 {
 						let e = last_progress.entry(s.w).or_insert((len, now));
 						if e.0 != len {
 							*e = (len, now);
-						} else if now - e.1 > 180_000_000_000 {
+						} else if now - e.1 > watchdog_ns {
 							let _ = c.kill();
 							let _ = c.wait();
 							s.child = None;
 							let (begun, _) = scan_progress(&s.out);
 							if let Some(b) = begun {
-								dead_cases.push((b, "case exceeded the 180 s wall-clock watchdog (hang)".into()));
+								dead_cases.push((b, format!("case exceeded the {} s wall-clock watchdog (hang)", watchdog_ns / 1_000_000_000)));
 								s.next = b + workers;
 								s.restarts += 1;
-								if s.next < total && s.restarts < 50 {
+								if s.next < total && s.restarts < 50 && dead_cases.len() < 3 {
 									spawn(s);
 								}
 							}
@@ -582,9 +590,9 @@ pub fn run_check(def: &CheckDef, tier: Tier) -> i32 {
 
 	// confirm each new violation by replaying its file in a fresh process (first 5)
 	let mut confirmed: Vec<(CaseLine, String)> = Vec::new();
-	for (l, died) in violations.iter().take(5) {
+	for (l, died) in violations.iter().take(if dead_cases.is_empty() { 5 } else { 2 }) {
 		let path = l.replay.clone().unwrap_or_default();
-		// bounded: a replay that hangs is killed after 240 s
+		// bounded: a replay that hangs is killed (240 s; 100 s when cases already hung)
 		let st = (|| -> std::io::Result<(Option<i32>, String)> {
 			let outp = outdir.join("replay.out");
 			let f = std::fs::File::create(&outp)?;
@@ -594,10 +602,10 @@ pub fn run_check(def: &CheckDef, tier: Tier) -> i32 {
 				if let Some(s) = c.try_wait()? {
 					return Ok((s.code(), std::fs::read_to_string(&outp).unwrap_or_default()));
 				}
-				if real_monotonic_ns() - t1 > 240_000_000_000 {
+				if real_monotonic_ns() - t1 > if dead_cases.is_empty() { 240_000_000_000 } else { 100_000_000_000 } {
 					let _ = c.kill();
 					let _ = c.wait();
-					return Ok((None, "replay exceeded 240 s (hang)".into()));
+					return Ok((None, "replay exceeded its time bound (hang)".into()));
 				}
 				unsafe { libc::usleep(20_000) };
 			}
